@@ -1990,7 +1990,9 @@ func (sa *Application) removeAllocationInternal(allocationKey string, releaseTyp
 
 		// When the resource trackers are zero we should not expect anything to come in later.
 		if sa.hasZeroAllocations() {
-			removeApp = true
+			// placeholders that are still allocated are tracked for the user: the application is removed from the
+			// tracking when the last placeholder is removed
+			removeApp = resources.IsZero(sa.allocatedPlaceholder)
 			event = CompleteApplication
 			eventWarning = "Application state not changed to Completing while removing an allocation"
 		}
